@@ -696,6 +696,7 @@ var jNullishPatterns = []string{
 	"x=Math.pow(a,b);", "x=(a==null?undefined:a.p.q);",
 	"x=a?c?.(b):c(a);", "x=a?c(b):c?.(a);", "x=a?c?.(b):c?.(a);", "x=a?c(b):c(a);", "x=(c==null?undefined:c(a));", "x=a?b?.p:b.p;", "x=a?b.p:b?.p;",
 	"x={y:y,z:1};",
+	"x=-Math.pow(a,b);", "x=!Math.pow(a,b);", "x=typeof Math.pow(a,b);", "x=Math.pow(a,b)**c;", "x=c**Math.pow(a,b);", "x=Math.pow(-a,b);", "x=Math.pow(a,-b);", "x=Math.pow(a,b).p;", "x=Math.pow(a?b:c,b);", "x=Math.pow(a,b?a:c);", "x=Math.pow(a,b)+1;", "x=2*Math.pow(a,b);",
 }
 
 // VerifJSNullish (C16 version gates + C01): nullish / optional-chaining rewrite patterns for the targets ES5, ES2015,
@@ -724,7 +725,7 @@ func VerifJSNullish(n int) {
 		vAssert(has(orig, "?.") || !has(out, "?."), "no ?. for targets older than ES2020")
 	}
 	if version != 0 && version < 2016 {
-		vAssert(!has(out, "**"), "no ** for targets older than ES2016")
+		vAssert(has(orig, "**") || !has(out, "**"), "no ** for targets older than ES2016")
 	}
 	if version != 0 && version < 2015 {
 		vAssert(!has(out, "{y,") && !has(out, ",y}"), "no shorthand property for targets older than ES2015")
@@ -806,4 +807,68 @@ func VerifJSForInit(n int) {
 	err2 := (&Minifier{}).Minify(nil, w2, &vReader{b: out}, nil)
 	vAssert(err2 == nil, "output is accepted again")
 	vReach("end")
+}
+
+// VerifJSBoolCoerce: boolean coercions over && / || that mix a boolean-valued operand with a plain value:
+// !!(E), E?true:false, E?false:true, E?Y:false, E?true:Y with E = A op B, A and B out of comparisons, negations and
+// plain variables / calls: the coercion may only be dropped when E is boolean whatever its operands evaluate to.
+func VerifJSBoolCoerce(n int) {
+	g := &jgen{}
+	atoms := []string{"a", "b", "!a", "a==null", "b===undefined", "f(1)", "!f(1)", "a.p"}
+	e1 := atoms[g.choice(len(atoms))]
+	e2 := atoms[g.choice(len(atoms))]
+	op := []string{"||", "&&"}[g.choice(2)]
+	c := e1 + op + e2
+	if n >= 1 {
+		c = "(" + c + ")" + []string{"||", "&&"}[g.choice(2)] + atoms[g.choice(len(atoms))]
+	}
+	var body string
+	switch g.choice(6) {
+	case 0:
+		body = "x=!!(" + c + ");"
+	case 1:
+		body = "x=(" + c + ")?true:false;"
+	case 2:
+		body = "x=(" + c + ")?false:true;"
+	case 3:
+		body = "x=(" + c + ")?b:false;"
+	case 4:
+		body = "x=(" + c + ")?true:b;"
+	default:
+		body = "return !!(" + c + ");"
+	}
+	verifJSProgram([]byte(body), 0)
+}
+
+var jDangling = []string{
+	"if(a){if(b)%1else if(c)%2}else %3",
+	"if(a){if(b)%1}else %3",
+	"if(a){if(b)%1else %2}else %3",
+	"if(a)if(b)%1else %2",
+	"if(a){if(b)%1else if(c)%2else %3}",
+	"if(a){if(b)%1}else if(c)%2",
+	"if(a){if(b){if(c)%1}else %2}else %3",
+	"if(a){if(b)%1else{if(c)%2}}else %3",
+	"if(a){if(b)%1;if(c)%2}else %3",
+}
+
+// VerifJSDanglingElse: nested if / else-if chains whose braces decide which `if` an `else` belongs to; the branch
+// bodies are blocks with lexical declarations (which keeps the ifs from being turned into expressions) or plain calls.
+func VerifJSDanglingElse(n int) {
+	t := jDangling[vChoice("shape", len(jDangling))]
+	bodies := [][3]string{
+		{"{let v=f(1);g(v)}", "{let w=f(2);g(w)}", "{let u=f(3);g(u)}"},
+		{"f(1);", "{let w=f(2);g(w)}", "g(3);"},
+		{"{let v=f(1);g(v)}", "g(2);", "{let u=f(3);g(u)}"},
+	}[vChoice("bodies", 3)]
+	var body []byte
+	for i := 0; i < len(t); i++ {
+		if t[i] == '%' && i+1 < len(t) {
+			body = append(body, bodies[t[i+1]-'1']...)
+			i++
+		} else {
+			body = append(body, t[i])
+		}
+	}
+	verifJSProgram(body, 0)
 }
